@@ -456,12 +456,24 @@ class Assign(Statement, AssignBase):
         return result
 
     def map_expressions(self, mapper, include_lhs=True):
+        from pymbolic.primitives import Variable
+
+        if include_lhs:
+            # Loop identifiers are names bound by this statement.
+            loop_vars = tuple(
+                    mapper(Variable(ident)) for ident, _, _ in self.loops)
+            assert all(isinstance(loop_var, Variable) for loop_var in loop_vars)
+            idents = tuple(loop_var.name for loop_var in loop_vars)
+        else:
+            idents = tuple(ident for ident, _, _ in self.loops)
+
         return (super()
                 .map_expressions(mapper, include_lhs=include_lhs)
                 .copy(
                     loops=[
-                        (ident, mapper(start), mapper(end))
-                        for ident, start, end in self.loops]))
+                        (new_ident, mapper(start), mapper(end))
+                        for new_ident, (_, start, end)
+                        in zip(idents, self.loops)]))
 
     def __str__(self):
         result = super().__str__()
